@@ -165,6 +165,18 @@ func decodeLogEntry(r io.Reader) (LogEntry, error) {
 	return entry, nil
 }
 
+// countingReader counts the number of bytes read from the underlying reader.
+type countingReader struct {
+	reader io.Reader
+	count  int64
+}
+
+func (c *countingReader) Read(p []byte) (int, error) {
+	n, err := c.reader.Read(p)
+	c.count += int64(n)
+	return n, err
+}
+
 // persistentLog implements the Log interface. Not concurrent safe.
 type persistentLog struct {
 	// The in-memory log entries of the log.
@@ -207,17 +219,33 @@ func (l *persistentLog) Open() error {
 }
 
 func (l *persistentLog) Replay() error {
-	reader := bufio.NewReader(l.file)
+	reader := &countingReader{reader: bufio.NewReader(l.file)}
+
+	// The offset of the end of the last complete entry in the file.
+	var validSize int64
 
 	for {
 		entry, err := decodeLogEntry(reader)
-		if errors.Is(err, io.EOF) {
+		// A write that was interrupted by a crash may leave a partially written
+		// entry at the end of the file. The entry was never acknowledged, so it
+		// is safe to drop it.
+		if errors.Is(err, io.EOF) || errors.Is(err, io.ErrUnexpectedEOF) {
 			break
 		}
 		if err != nil {
 			return fmt.Errorf("could not decode log entry: %w", err)
 		}
 		l.entries = append(l.entries, &entry)
+		validSize = reader.count
+	}
+
+	// Remove any partially written entry and make sure new entries are
+	// written directly after the last complete entry.
+	if err := l.file.Truncate(validSize); err != nil {
+		return fmt.Errorf("could not truncate log file: %w", err)
+	}
+	if _, err := l.file.Seek(validSize, io.SeekStart); err != nil {
+		return fmt.Errorf("could not seek log file: %w", err)
 	}
 
 	// The log must always contain at least one entry.
